@@ -7,6 +7,7 @@ import ast
 from ..common import AnalysisError, rel
 from ..cfg import cfg_of
 from ..fold import Folder, Env, FoldRaise, ClassVal
+from ..srcdb import ClassInfo
 from .. import boolfn, pathsum
 from ..callgraph import CallGraph
 from ..pathsum import struct, show, is_const, path_terms, arith_key, replace
@@ -994,7 +995,76 @@ def records(report, db, S):
             continue
         n += 1
         me, o = sy(fi.all_params[0]), sy(fi.all_params[1])
+        # an operator is called with one operand: further parameters take
+        # their defaults (a flag bound by partialmethod on a sibling)
+        extra = {}
+        a_ = fi.node.args
+        for pn, d in zip([x.arg for x in a_.args][len(a_.args) - len(
+                a_.defaults):], a_.defaults):
+            if pn not in fi.all_params[:2] and isinstance(d, ast.Constant):
+                extra[pn] = d.value
+
+        def by_default(p):
+            for a, pol, _ in p.conds:
+                if a[1] == 'truth' and a[2][0][0] == 'sym' and \
+                        a[2][0][1] in extra and pol != bool(
+                            extra[a[2][0][1]]):
+                    return False
+            return True
+        if name in ('__add__', '__sub__'):
+            # which operands are refused: exactly those that are no Vector
+            narrow = None
+
+            def covers(t):
+                # does a refusal by 'not isinstance(other, t)' let every
+                # Vector through?  True / False / None (not decided)
+                if t[0] == 'cls':
+                    return db.is_subclass(vec, t[1])
+                if t[0] == 'sym' and isinstance(t[1], str):
+                    # a module-level name defined further down
+                    try:
+                        ent = db.resolve_dotted(fi.module, ast.Name(
+                            id=t[1], ctx=ast.Load()))
+                    except AnalysisError:
+                        return None
+                    ent = db.deref(ent) if isinstance(ent, tuple) else ent
+                    return db.is_subclass(vec, ent) if isinstance(
+                        ent, ClassInfo) else None
+                if t[0] == 'tuple':
+                    each = [covers(x) for x in t[1]]
+                    return True if True in each else (
+                        None if None in each else False)
+                if struct(t) in (('op', 'type', (me,)),
+                                 ('attr', me, '__class__')):
+                    return False
+                return None
+            for p in S.run(fi):
+                if not (p.returns and p.value == ('builtin',
+                                                  'NotImplemented')):
+                    continue
+                for a, pol, _ in p.conds:
+                    if a[1] == 'isinstance' and struct(a[2][0]) == o and \
+                            not pol:
+                        c = covers(a[2][1])
+                        if c is None:
+                            raise AnalysisError(
+                                'Vector.%s refuses operands by isinstance '
+                                'against %s: which vectors that lets through '
+                                'is not decided' % (name, show(a[2][1])),
+                                fi.node, rel(fi.path))
+                        if not c:
+                            narrow = a[2][1]
+            if narrow is not None:
+                report.violation(R, 'vector:guard:%s' % name, fi.path,
+                                 fi.node, fi.qualname, '%s refuses an '
+                                 'operand unless it is an instance of %s: a '
+                                 'vector of another vector type (Position + '
+                                 'Vector) is refused although the result '
+                                 'should take the left operand\'s type'
+                                 % (name, show(narrow)))
+                continue
         built = [(p, p.value) for p in S.run(fi) if p.returns and
+                 by_default(p) and
                  p.value != ('builtin', 'NotImplemented')]
         if not built or not all(v[0] == 'call' and struct(v[1]) == (
                 'op', 'type', (me,)) and len(v[2]) == 3 and not v[3]
